@@ -48,7 +48,7 @@ structure Cfg where
 /-- Reader: idle, or holding an `AssetReadGuard` (`locked`: the read lock is really held) with what
 it has observed under this guard: `(word index, version)` pairs and reload ids. -/
 inductive RS | idle | hold (locked : Bool) (ow : List (Nat × Nat)) (oid : List Nat)
-  deriving Repr
+  deriving DecidableEq, Repr
 
 inductive CS | idle | got (t : Nat) | waiting (t : Nat)
   deriving DecidableEq, Repr
@@ -195,11 +195,11 @@ def ordOk : Bool → Bool → List WStep → Bool
   | c, i, .inc :: r => c && !i && ordOk c true r
   | c, i, _ :: r => ordOk c i r
 
-/-- Every `update` of the arm is followed by a `notify`. -/
+/-- Every `update` of the arm is followed by a `notify`, and the `notify` is the last step. -/
 def armOk : List RStep → Bool
   | [] => true
   | .update :: r => r.contains .notify && armOk r
-  | .notify :: r => armOk r
+  | .notify :: r => r.isEmpty
 
 def Cfg.WF (cfg : Cfg) : Bool :=
   wfW none cfg.wprog && ordOk false false cfg.wprog && cfg.readLocks && cfg.mapKeeps && armOk cfg.arm && cfg.callerWaits
